@@ -26,10 +26,8 @@ SLACK = 0.25
 
 
 def _lost(ep, trace, clean=True):
-    from twisted.python.failure import Failure
-    from twisted.internet.error import ConnectionDone
     trace.append((ep.who, "LOST"))
-    ep.p.connectionLost(Failure(ConnectionDone()))
+    wslib.lost(ep, getattr(ep, "fw", "twisted"))
 
 
 def _step(clock, ep, until, on_tick=None):
@@ -60,14 +58,15 @@ def _after_close_inert(sx, clock, ep, trace, info):
     sx.check(len(trace) == n and len(ep.t.written) == w, "timers-have-no-effect-after-close", info=info)
 
 
-def open_timeout(sx, server, T):
+def open_timeout(sx, server, T, fw="twisted"):
     import base64
     import hashlib
     from symx.env import Trace
-    clock = wslib.setup_twisted()
+    clock = wslib.setup_fw(fw)
     trace = Trace()
     wslib.patch_env(sx, clock, fixed_rnd=True)
-    ep, f = wslib.make_endpoint(sx, "S" if server else "C", server, trace, clock, dict(openHandshakeTimeout=T))
+    ep, f = wslib.make_endpoint_fw(fw, sx, "S" if server else "C", server, trace, clock, dict(openHandshakeTimeout=T))
+    ep.fw = fw
     ep.p.makeConnection(ep.t)
     ngrid = int((T + 1) / GRID) + 1
     k = sx.choice("when", ngrid + 1)           # grid instant of the peer's handshake, or never (== ngrid)
@@ -80,7 +79,7 @@ def open_timeout(sx, server, T):
         acc = base64.b64encode(hashlib.sha1(key + b"258EAFA5-E914-47DA-95CA-C5AB0DC85B11").digest())
         hs = (b"HTTP/1.1 101 Switching Protocols\r\nUpgrade: websocket\r\nConnection: Upgrade\r\n"
               b"Sec-WebSocket-Accept: " + acc + b"\r\n\r\n")
-    info = dict(server=server, T=T, tau=tau)
+    info = dict(server=server, T=T, tau=tau, fw=fw)
     dropped = None
     if tau is not None:
         dropped = _step(clock, ep, tau)
@@ -104,12 +103,13 @@ def open_timeout(sx, server, T):
     return [tau, dropped]
 
 
-def close_timeouts(sx, server, Tc, Td):
+def close_timeouts(sx, server, Tc, Td, fw="twisted"):
     """local close at t0; peer's close reply at a grid instant or never; then (client) the server's TCP drop at a grid instant or never"""
     opts = dict(closeHandshakeTimeout=Tc)
     if not server:
         opts["serverConnectionDropTimeout"] = Td
-    clock, trace, ep, rnd = wslib.open_one(sx, server, opts, fixed_rnd=True)
+    clock, trace, ep, rnd = wslib.open_one(sx, server, opts, fixed_rnd=True, fw=fw)
+    ep.fw = fw
     p = ep.p
     _step(clock, ep, 0.5)
     t0 = clock.seconds()
@@ -117,7 +117,7 @@ def close_timeouts(sx, server, Tc, Td):
     ng = int((Tc + 1) / GRID) + 1
     k = sx.choice("reply", ng + 1)
     tau = None if k == ng else k * GRID
-    info = dict(server=server, Tc=Tc, Td=Td, reply_after=tau)
+    info = dict(server=server, Tc=Tc, Td=Td, reply_after=tau, fw=fw)
     mask = b"\x01\x02\x03\x04" if server else None
     dropped = None
     if tau is not None:
@@ -181,9 +181,10 @@ def close_timeouts(sx, server, Tc, Td):
 REACTIONS = ["pong", "silent", "data", "data+latepong", "wrongpong", "data+pong-intime"]
 
 
-def autoping(sx, server, I, T, restart, rounds):
+def autoping(sx, server, I, T, restart, rounds, fw="twisted"):
     opts = dict(autoPingInterval=I, autoPingTimeout=T, autoPingSize=12, autoPingRestartOnAnyTraffic=restart)
-    clock, trace, ep, rnd = wslib.open_one(sx, server, opts, fixed_rnd=True)
+    clock, trace, ep, rnd = wslib.open_one(sx, server, opts, fixed_rnd=True, fw=fw)
+    ep.fw = fw
     p, t = ep.p, ep.t
     mask = b"\x01\x02\x03\x04" if server else None
     pings = []               # (time, payload) of ping frames we wrote
@@ -198,7 +199,7 @@ def autoping(sx, server, I, T, restart, rounds):
                 if f.opcode == 9:
                     pings.append((now, f.payload))
 
-    info = dict(server=server, I=I, T=T, restart=restart)
+    info = dict(server=server, I=I, T=T, restart=restart, fw=fw)
     log = []
     alive_until = None
     for r in range(rounds):
@@ -279,18 +280,19 @@ def autoping(sx, server, I, T, restart, rounds):
     return [log, times]
 
 
-def peer_close(sx, server, echo, Tc, Td):
+def peer_close(sx, server, echo, Tc, Td, fw="twisted"):
     """the PEER starts the closing handshake at t0: a server answers and drops TCP at once; a client answers and then waits for the
     server's TCP drop - not dropped while the server is within serverConnectionDropTimeout, dropped by the deadline when it never drops"""
     opts = dict(closeHandshakeTimeout=Tc, echoCloseCodeReason=echo)
     if not server:
         opts["serverConnectionDropTimeout"] = Td
-    clock, trace, ep, rnd = wslib.open_one(sx, server, opts, fixed_rnd=True)
+    clock, trace, ep, rnd = wslib.open_one(sx, server, opts, fixed_rnd=True, fw=fw)
+    ep.fw = fw
     p = ep.p
     _step(clock, ep, 0.5)
     t0 = clock.seconds()
     mask = b"\x01\x02\x03\x04" if server else None
-    info = dict(server=server, echo=echo, Tc=Tc, Td=Td)
+    info = dict(server=server, echo=echo, Tc=Tc, Td=Td, fw=fw)
     p.dataReceived(wslib.build_frame(8, b"\x03\xe8bye", mask=mask))
     frames, rest = wslib.parse_frames(sx, wslib.concat(ep.t.take()))
     sx.check(len([f for f in frames if f.opcode == 8]) == 1, "peer-close-answered-with-one-close-frame", info=info)
@@ -350,4 +352,19 @@ def units(tier):
                 for restart in (True, False):
                     U.append(("ping/%s/I%d/T%d/%s" % ("S" if server else "C", I, T, "restart" if restart else "norestart"), "autoping",
                               dict(server=server, I=I, T=T, restart=restart, rounds=3 if q else 4), dict(weight=4)))
+    # the asyncio adapter on a virtual-time event loop (own interpreter per unit): same harnesses, same oracles
+    AIO = dict(framework="asyncio")
+    for server in (True, False):
+        for T in ((1,) if q else (1, 2, 3)):
+            U.append(("aio/open/%s/T%d" % ("S" if server else "C", T), "open_timeout", dict(server=server, T=T, fw="asyncio"), dict(AIO)))
+        for Tc, Td in (((1, 1), (2, 2)) if q else ((1, 1), (2, 2), (1, 2), (2, 1), (3, 1))):
+            if server and Td != Tc and Td != 1:
+                continue
+            U.append(("aio/close/%s/Tc%d/Td%d" % ("S" if server else "C", Tc, Td), "close_timeouts", dict(server=server, Tc=Tc, Td=Td, fw="asyncio"), dict(AIO)))
+        for I, T in (((1, 1), (2, 1)) if q else ((1, 1), (2, 1), (1, 2), (2, 2), (3, 2))):
+            for restart in (True, False):
+                U.append(("aio/ping/%s/I%d/T%d/%s" % ("S" if server else "C", I, T, "restart" if restart else "norestart"), "autoping",
+                          dict(server=server, I=I, T=T, restart=restart, rounds=2 if q else 3, fw="asyncio"), dict(AIO, weight=4)))
+        for echo in (False, True):
+            U.append(("aio/peerclose/%s/%s" % ("S" if server else "C", "echo" if echo else "-"), "peer_close", dict(server=server, echo=echo, Tc=1, Td=2, fw="asyncio"), dict(AIO)))
     return U
